@@ -1,3 +1,339 @@
-import ArrModel.Joining
+import ArrProofs.Lemmas.C11Column
+/-!
+# C11 — joining lays the inputs contiguously along the axis; splitting is its inverse
+
+Model under test: `ArrModel/Split.lean` (`sectionSizes`, `divPoints`, `arraySplit`, `split`, `splitAxis`) and
+`ArrModel/Joining.lean` (`appendAxis`, `append`, `validateStackShapes`, `concatenate`, `stack`, `vstack`, `hstack`,
+`dstack`, `rowStack`, `hsplit`, `vsplit`, `dsplit`).  Every statement is for every rank, every axis (first, inner,
+last), every axis length and every part count; no bounds.
+
+Vocabulary: `a.get? c` is the element at coordinate `c`; `c.set k x` replaces coordinate `k`; `inRange s c` says `c` is a
+coordinate inside shape `s`; `axLen k b = b.shape[k]`; `offsetOf k arrs i` = the sum of the axis-`k` lengths of the first `i`
+inputs (where input `i` starts); `blockOf L sizes i = (L.drop (sizes[0]+…+sizes[i-1])).take sizes[i]`;
+`Joinable k a0 rest` = all inputs well formed, axis `k` inside every rank, shapes equal with axis `k` removed, and no
+zero-length axis among the others; `colsOf b` = 1 for a vector, `b.shape[1]` for a matrix; `colCoord b row col` = `[row]` for a
+vector, `[row, col]` for a matrix; `ColOK R b` = well formed of shape `[R]` or `[R, m]`.
+-/
 namespace ArrModel.C11
+open ArrModel Arr
+variable {α : Type}
+
+/-! ## 1. section sizes and division points -/
+
+/-- **section sizes**: `parts` of them, summing to `n`, the first `n % parts` are `n / parts + 1` and the others
+`n / parts` (so they differ by at most one, larger first), all equal when `parts ∣ n` -/
+theorem sectionSizes_spec (n parts : Nat) (hp : 0 < parts) :
+    (sectionSizes n parts).length = parts ∧ (sectionSizes n parts).sum = n ∧
+    (∀ i, i < parts → (sectionSizes n parts)[i]? = some (if i < n % parts then n / parts + 1 else n / parts)) ∧
+    (n % parts = 0 → sectionSizes n parts = List.replicate parts (n / parts)) :=
+  ⟨sectionSizes_length n parts hp, sectionSizes_sum n parts hp, fun i hi => sectionSizes_getElem? n parts i hi,
+    sectionSizes_dvd n parts⟩
+
+/-- **larger sections come first and sizes differ by at most one** -/
+theorem sectionSizes_larger_first (n parts i j : Nat) (hij : i ≤ j) (hj : j < parts) :
+    (sectionSizes n parts).getD j 0 ≤ (sectionSizes n parts).getD i 0 ∧
+    (sectionSizes n parts).getD i 0 ≤ (sectionSizes n parts).getD j 0 + 1 := by
+  simp only [List.getD_eq_getElem?_getD, sectionSizes_getElem? n parts i (by omega), sectionSizes_getElem? n parts j hj,
+    Option.getD_some]
+  split <;> split <;> omega
+
+/-- **division points are the prefix sums of the sizes**: one more than the sizes, starting at 0, ending at the total,
+non-decreasing -/
+theorem divPoints_spec (sizes : List Nat) :
+    (divPoints sizes).length = sizes.length + 1 ∧
+    (∀ i, i ≤ sizes.length → (divPoints sizes)[i]? = some (sizes.take i).sum) ∧
+    (divPoints sizes)[0]? = some 0 ∧ (divPoints sizes)[sizes.length]? = some sizes.sum ∧
+    (∀ i j, i ≤ j → (sizes.take i).sum ≤ (sizes.take j).sum) := by
+  refine ⟨divPoints_length sizes, fun i hi => divPoints_getElem? sizes i hi, ?_, ?_, sum_take_le sizes⟩
+  · rw [divPoints_getElem? sizes 0 (by omega)]; simp
+  · rw [divPoints_getElem? sizes _ (Nat.le_refl _), List.take_length]
+
+/-! ## 2. splitting a 1-D array -/
+
+/-- **the pieces of a 1-D split are the consecutive blocks of the element list with the section sizes** -/
+theorem arraySplit_1d (a : Arr α) (zero : α) (parts n : Nat) (hwf : a.WF) (hs : a.shape = [n]) (hn : 0 < n)
+    (hp : 0 < parts) :
+    a.arraySplit zero parts (some 0) =
+      .ok ((List.range parts).map (fun i => Arr.flat (blockOf a.elems (sectionSizes n parts) i))) ∧
+    a.arraySplit zero parts none = a.arraySplit zero parts (some 0) :=
+  ⟨arraySplit_flat1d a zero parts n hwf hs hn hp, arraySplit_none a zero parts (by rw [Arr.ndim, hs]; simp)⟩
+
+/-- **1-D round trip**: chaining the pieces gives the element list back, and `concatenate(pieces, None)` is the array -/
+theorem concat_split_id_flat (a : Arr α) (zero : α) (parts n : Nat) (hwf : a.WF) (hs : a.shape = [n]) (hn : 0 < n)
+    (hp : 0 < parts) :
+    ∃ pieces, a.arraySplit zero parts none = .ok pieces ∧ pieces.flatMap (·.elems) = a.elems ∧
+      ∃ r, concatenate pieces zero none = .ok r ∧ r.elems = a.elems := by
+  obtain ⟨h1, h2⟩ := arraySplit_1d a zero parts n hwf hs hn hp
+  have hL : a.elems.length = n := by rw [hwf, hs]; simp
+  have hfl : ((List.range parts).map (fun i => Arr.flat (blockOf a.elems (sectionSizes n parts) i))).flatMap (·.elems)
+      = a.elems := by
+    rw [List.flatMap_map]
+    have := blocks_flatten a.elems (sectionSizes n parts) (by rw [sectionSizes_sum n parts hp, hL])
+    rw [sectionSizes_length n parts hp] at this
+    exact this
+  refine ⟨_, h2.trans h1, hfl, ?_⟩
+  cases hpc : (List.range parts).map (fun i => Arr.flat (blockOf a.elems (sectionSizes n parts) i)) with
+  | nil => have := congrArg List.length hpc; simp at this; omega
+  | cons p0 prest =>
+    obtain ⟨r, g1, g2⟩ := concatenate_none_elems zero p0 prest
+    exact ⟨r, g1, by rw [g2, ← hpc, hfl]⟩
+
+/-! ## 3. splitting along an axis -/
+
+/-- **`array_split` along axis `k`**: `parts` pieces; piece `i` has the input shape with axis `k` cut down to
+`sizes[i]`, and its element at `c` is the input element at `c` moved by the block offset `sizes[0]+…+sizes[i-1]`
+along axis `k` — the pieces are consecutive blocks along that axis -/
+theorem arraySplit_at (a : Arr α) (zero : α) (parts k : Nat) (hwf : a.WF) (hnz : 0 ∉ a.shape) (hp : 0 < parts)
+    (hk : k < a.ndim) :
+    ∃ pieces, a.arraySplit zero parts (some k) = .ok pieces ∧ pieces.length = parts ∧
+      ∀ i (hi : i < pieces.length),
+        pieces[i].shape = a.shape.set k ((sectionSizes (a.shape.getD k 0) parts).getD i 0) ∧ pieces[i].WF ∧
+        ∀ c, inRange pieces[i].shape c = true →
+          pieces[i].get? c = a.get? (c.set k (((sectionSizes (a.shape.getD k 0) parts).take i).sum + c.getD k 0)) :=
+  arraySplit_coord a zero parts k hwf hnz hp hk
+
+/-- **`split` is `array_split` when the part count divides the axis length, and an error otherwise** -/
+theorem split_spec (a : Arr α) (zero : α) (parts k : Nat) (hwf : a.WF) (hnz : 0 ∉ a.shape) (hp : 0 < parts)
+    (hk : k < a.ndim) :
+    a.split zero parts (some k) =
+      if a.shape.getD k 0 % parts = 0 then a.arraySplit zero parts (some k) else .err .ParameterError := by
+  have hne := isEmpty_false_of a hwf hnz
+  unfold Arr.split
+  rw [if_neg (by simp; omega), if_neg (by omega)]
+  simp only [hne, Bool.false_eq_true, if_false, Option.getD_some, idx_getD a.shape k hk, Res.bind_ok]
+
+/-- **refusals of splitting**: zero parts and an axis outside the rank are errors (never a panic, never data) -/
+theorem split_refuses (a : Arr α) (zero : α) (parts k : Nat) :
+    (parts = 0 → (∃ e, a.arraySplit zero parts (some k) = .err e) ∧ (∃ e, a.split zero parts (some k) = .err e)) ∧
+    (a.ndim ≤ k → (∃ e, a.arraySplit zero parts (some k) = .err e) ∧ (∃ e, a.split zero parts (some k) = .err e) ∧
+      a.splitAxis zero k = .err .AxisOutOfBounds) := by
+  constructor
+  · intro h0
+    constructor
+    · exact ⟨_, by unfold Arr.arraySplit; rw [if_pos h0]⟩
+    · by_cases hd : decide (k ≥ a.ndim) = true
+      · exact ⟨.AxisOutOfBounds, by unfold Arr.split; simp only [hd, if_true]⟩
+      · exact ⟨.ParameterError, by unfold Arr.split; simp only [hd, h0, Bool.false_eq_true, if_false, if_true]⟩
+  · intro hk
+    have hd : decide (k ≥ a.ndim) = true := by simpa using hk
+    refine ⟨?_, ⟨.AxisOutOfBounds, by unfold Arr.split; simp only [hd, if_true]⟩, by unfold Arr.splitAxis; rw [if_pos hk]⟩
+    by_cases h0 : parts = 0
+    · exact ⟨.ParameterError, by unfold Arr.arraySplit; rw [if_pos h0]⟩
+    · exact ⟨.AxisOutOfBounds, by unfold Arr.arraySplit; rw [if_neg h0]; simp only [hd, if_true]⟩
+
+/-- **splitting never panics** on a well-formed array without zero-length axis: every call is data or an error -/
+theorem split_no_panic (a : Arr α) (zero : α) (parts k : Nat) (hwf : a.WF) (hnz : 0 ∉ a.shape) :
+    a.arraySplit zero parts (some k) ≠ .panic ∧ a.split zero parts (some k) ≠ .panic := by
+  by_cases hp : parts = 0
+  · obtain ⟨⟨e1, h1⟩, ⟨e2, h2⟩⟩ := (split_refuses a zero parts k).1 hp
+    rw [h1, h2]; simp
+  · by_cases hk : a.ndim ≤ k
+    · obtain ⟨⟨e1, h1⟩, ⟨e2, h2⟩, _⟩ := (split_refuses a zero parts k).2 hk
+      rw [h1, h2]; simp
+    · obtain ⟨pieces, h1, _⟩ := arraySplit_at a zero parts k hwf hnz (by omega) (by omega)
+      rw [split_spec a zero parts k hwf hnz (by omega) (by omega), h1]
+      constructor
+      · simp
+      · split <;> simp
+
+/-- **the default axis of splitting and stacking is axis 0** (for inputs of rank ≥ 1) -/
+theorem none_axis_is_zero (a : Arr α) (zero : α) (parts : Nat) (h : 1 ≤ a.ndim) (rest : List (Arr α))
+    (hr : ∀ b ∈ rest, 1 ≤ b.ndim) :
+    a.arraySplit zero parts none = a.arraySplit zero parts (some 0) ∧
+    a.split zero parts none = a.split zero parts (some 0) ∧
+    stack (a :: rest) zero none = stack (a :: rest) zero (some 0) := by
+  have hd : ¬ (0 ≥ a.ndim) := by omega
+  refine ⟨arraySplit_none a zero parts h, ?_, ?_⟩
+  · unfold Arr.split
+    simp only [hd, decide_false, Bool.false_eq_true, if_false, Option.getD_none, Option.getD_some,
+      arraySplit_none a zero parts h]
+  · have hany : ((a :: rest).any fun b => decide (0 ≥ b.ndim)) = false := by
+      simp only [List.any_eq_false, decide_eq_true_eq]
+      intro b hb
+      rcases List.mem_cons.1 hb with rfl | hb
+      · exact hd
+      · have := hr b hb; omega
+    unfold Arr.stack
+    simp only [hany, Bool.false_eq_true, if_false, Option.getD_none, Option.getD_some]
+
+/-! ## 4. joining -/
+
+/-- **`append` along axis `k`**: the axis length of the result is the sum; the first input keeps its coordinates, the
+second occupies, unchanged, the block that follows it -/
+theorem appendAxis_at (a v : Arr α) (zero : α) (k : Nat) (hwa : a.WF) (hwv : v.WF) (hk : k < a.ndim) (hkv : k < v.ndim)
+    (hoff : a.shape.eraseIdx k = v.shape.eraseIdx k) (hnz : 0 ∉ a.shape.eraseIdx k) :
+    ∃ r, a.append v zero (some k) = .ok r ∧ r.shape = a.shape.set k (a.shape.getD k 0 + v.shape.getD k 0) ∧ r.WF ∧
+      (∀ c, inRange a.shape c = true → r.get? c = a.get? c) ∧
+      (∀ c, inRange v.shape c = true → r.get? (c.set k (a.shape.getD k 0 + c.getD k 0)) = v.get? c) :=
+  appendAxis_coord a v zero k hwa hwv hk hkv hoff hnz
+
+/-- **`concatenate` along axis `k`** of inputs that agree off the axis: the result has the axis length = the sum of the
+inputs' lengths, and input `i` occupies, unchanged, the block `[off_i, off_i + n_i)` along the axis -/
+theorem concatenate_at (zero : α) (k : Nat) (a0 : Arr α) (rest : List (Arr α)) (h : Joinable k a0 rest) :
+    ∃ r, concatenate (a0 :: rest) zero (some k) = .ok r ∧
+      r.shape = a0.shape.set k (((a0 :: rest).map (axLen k)).sum) ∧ r.WF ∧
+      ∀ i (hi : i < (a0 :: rest).length) c, inRange ((a0 :: rest)[i]).shape c = true →
+        r.get? (c.set k (offsetOf k (a0 :: rest) i + c.getD k 0)) = ((a0 :: rest)[i]).get? c :=
+  concatenate_coord zero k a0 rest h.1 h.2
+
+/-- **along axis 0 the result is the chained element lists** -/
+theorem concatenate_axis0_flat (zero : α) (a0 : Arr α) (rest : List (Arr α)) (h : Joinable 0 a0 rest) :
+    concatenate (a0 :: rest) zero (some 0) =
+      .ok ⟨(a0 :: rest).flatMap (·.elems), a0.shape.set 0 (((a0 :: rest).map (axLen 0)).sum)⟩ := by
+  have hk0 : 0 < a0.shape.length := (h.1 a0 List.mem_cons_self).2.1
+  cases hs : a0.shape with
+  | nil => rw [hs] at hk0; simp at hk0
+  | cons n Q =>
+    have hQ : 0 ∉ Q := by have := h.2; rwa [hs] at this
+    have := concatenate_axis0 zero Q hQ a0 rest (fun b hb => by
+      obtain ⟨g1, g2, g3⟩ := h.1 b hb
+      refine ⟨g1, ?_⟩
+      have := shape_cut_of_eraseIdx b.shape 0 [] Q g2 rfl (by rw [g3, hs]; rfl)
+      simpa [axLen] using this)
+    rw [this]; rfl
+
+/-- **`concatenate(…, None)` chains the element lists** (as a flat array when there are two or more inputs; a single
+input is returned as it is) -/
+theorem concatenate_none (zero : α) (a0 : Arr α) (rest : List (Arr α)) :
+    (∃ r, concatenate (a0 :: rest) zero none = .ok r ∧ r.elems = (a0 :: rest).flatMap (·.elems)) ∧
+    (rest ≠ [] → concatenate (a0 :: rest) zero none = .ok (Arr.flat ((a0 :: rest).flatMap (·.elems)))) := by
+  refine ⟨concatenate_none_elems zero a0 rest, ?_⟩
+  intro hne
+  cases rest with
+  | nil => exact absurd rfl hne
+  | cons b rest => exact concatenate_none_two zero a0 b rest
+
+/-- **inputs whose other axes differ are refused**: by `append` (rank or off-axis mismatch) and by `concatenate`
+(an axis outside some rank, or some input differing from the first off the axis) — an error, never data or a panic -/
+theorem mismatch_refused (zero : α) (k : Nat) (a0 : Arr α) (rest : List (Arr α)) :
+    (∀ v : Arr α, (a0.ndim ≠ v.ndim ∨ a0.shape.eraseIdx k ≠ v.shape.eraseIdx k) → ∃ e, a0.append v zero (some k) = .err e) ∧
+    ((∃ b ∈ a0 :: rest, k ≥ b.ndim ∨ b.shape.eraseIdx k ≠ a0.shape.eraseIdx k) →
+      ∃ e, concatenate (a0 :: rest) zero (some k) = .err e) := by
+  refine ⟨fun v hv => appendAxis_refuses a0 v zero k hv, ?_⟩
+  intro h
+  obtain ⟨e, he⟩ := validate_err k a0 rest h
+  exact ⟨e, by simp only [concatenate, he, Res.bind_err]⟩
+
+/-! ## 5. the round trip along an axis -/
+
+/-- **splitting along an axis and concatenating the pieces along that axis gives the original array**, for every part
+count (even or uneven split, more parts than the axis is long included) -/
+theorem concat_split_id_axis (a : Arr α) (zero : α) (parts k : Nat) (hwf : a.WF) (hnz : 0 ∉ a.shape) (hp : 0 < parts)
+    (hk : k < a.ndim) :
+    (a.arraySplit zero parts (some k) >>= fun ps => concatenate ps zero (some k)) = .ok a := by
+  obtain ⟨hs, hPl⟩ := shape_cut a.shape k hk
+  generalize a.shape.take k = P at hs hPl
+  subst hPl
+  exact concat_split_cut a zero parts _ P _ hwf hs hnz hp
+
+/-! ## 6. stacking -/
+
+/-- **`stack` at position `k`**: the result has a new axis of length = the number of inputs at position `k`, and the
+element at `c` with `j` inserted at position `k` is the element of input `j` at `c` -/
+theorem stack_at (zero : α) (k : Nat) (a0 : Arr α) (rest : List (Arr α)) (hk : k < a0.ndim)
+    (hnz : 0 ∉ a0.shape.eraseIdx k) (h : ∀ b ∈ a0 :: rest, b.WF ∧ b.shape = a0.shape) :
+    ∃ r, stack (a0 :: rest) zero (some k) = .ok r ∧ r.shape = a0.shape.insertIdx k (rest.length + 1) ∧ r.WF ∧
+      ∀ j (hj : j < (a0 :: rest).length) c, inRange a0.shape c = true →
+        r.get? (c.insertIdx k j) = ((a0 :: rest)[j]).get? c :=
+  stack_coord zero k a0 rest hk hnz h
+
+/-- **inputs of unequal shapes are refused by `stack`** -/
+theorem stack_unequal_refused (zero : α) (axis : Option Nat) (a0 : Arr α) (rest : List (Arr α))
+    (h : ∃ b ∈ a0 :: rest, b.shape ≠ a0.shape) : ∃ e, stack (a0 :: rest) zero axis = .err e :=
+  stack_unequal zero axis a0 rest h
+
+/-! ## 7. conveniences -/
+
+/-- **`vstack` = `concatenate` along axis 0** for inputs of rank ≠ 1 -/
+theorem vstack_eq_concatenate (zero : α) (a0 : Arr α) (rest : List (Arr α)) (h : Joinable 0 a0 rest)
+    (h1 : a0.shape.length ≠ 1) : vstack (a0 :: rest) zero = concatenate (a0 :: rest) zero (some 0) :=
+  vstack_nd zero a0 rest h h1
+
+/-- **`vstack` of 1-D inputs of one length = `concatenate` along axis 0 after `atleast(2)`**: the rows under each other -/
+theorem vstack_1d_eq_concatenate (zero : α) (n : Nat) (hn : 0 < n) (a0 : Arr α) (rest : List (Arr α))
+    (h : ∀ b ∈ a0 :: rest, b.WF ∧ b.shape = [n]) :
+    vstack (a0 :: rest) zero =
+      (Res.mapM' (fun (a : Arr α) => a.atleast 2) (a0 :: rest) >>= fun l => concatenate l zero (some 0)) ∧
+    vstack (a0 :: rest) zero = .ok ⟨(a0 :: rest).flatMap (·.elems), [rest.length + 1, n]⟩ := by
+  obtain ⟨h1, h2⟩ := vstack_1d zero n hn a0 rest h
+  exact ⟨h1.trans h2.symm, h1⟩
+
+/-- **`row_stack` is `vstack`** -/
+theorem rowStack_eq_vstack (zero : α) (arrs : List (Arr α)) : rowStack arrs zero = vstack arrs zero := rfl
+
+/-- **`hstack` = `concatenate` along axis 0 for 1-D inputs, along axis 1 after `atleast(2)` otherwise** -/
+theorem hstack_eq_concatenate (zero : α) (arrs : List (Arr α)) (a0 : Arr α) (rest : List (Arr α)) :
+    ((a0 :: rest).all (fun a => a.ndim == 1) = true →
+      hstack (a0 :: rest) zero = concatenate (a0 :: rest) zero (some 0)) ∧
+    (arrs.all (fun a => a.ndim == 1) = false →
+      Res.mapM' (fun (a : Arr α) => a.atleast 2) arrs = .ok (a0 :: rest) → Joinable 1 a0 rest →
+      hstack arrs zero = concatenate (a0 :: rest) zero (some 1)) :=
+  ⟨hstack_1d zero a0 rest, hstack_nd zero arrs a0 rest⟩
+
+/-- **`dstack` = `concatenate` along axis 2 after `atleast(3)`** -/
+theorem dstack_eq_concatenate (zero : α) (arrs : List (Arr α)) (a0 : Arr α) (rest : List (Arr α))
+    (hprom : Res.mapM' (fun (a : Arr α) => a.atleast 3) arrs = .ok (a0 :: rest)) (h : Joinable 2 a0 rest) :
+    dstack arrs zero = concatenate (a0 :: rest) zero (some 2) :=
+  dstack_nd zero arrs a0 rest hprom h
+
+/-- **`column_stack`**: 1-D inputs become single columns, 2-D inputs are laid side by side: the result has shape
+`[rows, total columns]` and input `i` occupies, unchanged, the columns `[off_i, off_i + cols_i)` of every row (this is
+`concatenate` along axis 1 of the inputs promoted to columns, stated by coordinates) -/
+theorem columnStack_at (zero : α) (R : Nat) (a0 : Arr α) (rest : List (Arr α)) (h : ∀ b ∈ a0 :: rest, ColOK R b) :
+    ∃ r, columnStack (a0 :: rest) zero = .ok r ∧ r.shape = [R, ((a0 :: rest).map colsOf).sum] ∧ r.WF ∧
+      ∀ i (hi : i < (a0 :: rest).length) row col, row < R → col < colsOf ((a0 :: rest)[i]) →
+        r.get? [row, (((a0 :: rest).take i).map colsOf).sum + col]
+          = ((a0 :: rest)[i]).get? (colCoord ((a0 :: rest)[i]) row col) :=
+  columnStack_spec zero R a0 rest h
+
+/-- **`column_stack` refuses inputs of rank other than 1 or 2** -/
+theorem columnStack_rank_refused (zero : α) (a0 : Arr α) (rest : List (Arr α)) (h0 : 1 ≤ a0.ndim)
+    (h : ∃ b ∈ a0 :: rest, ¬ (b.ndim = 1 ∨ b.ndim = 2)) : columnStack (a0 :: rest) zero = .err .UnsupportedDimension :=
+  columnStack_refuses zero a0 rest h0 h
+
+/-- **what `atleast(2)` / `atleast(3)` do to a well-formed input**: a vector becomes a row (`[1,n]`, resp. `[1,n,1]`), a
+matrix gets a trailing unit axis, higher ranks are unchanged; the elements are kept -/
+theorem atleast_spec (b : Arr α) (hwf : b.WF) :
+    (∀ n, b.shape = [n] → b.atleast 2 = .ok ⟨b.elems, [1, n]⟩ ∧ b.atleast 3 = .ok ⟨b.elems, [1, n, 1]⟩) ∧
+    (∀ m n, b.shape = [m, n] → b.atleast 3 = .ok ⟨b.elems, [m, n, 1]⟩) ∧
+    (2 ≤ b.ndim → b.atleast 2 = .ok b) ∧ (3 ≤ b.ndim → b.atleast 3 = .ok b) :=
+  ⟨fun n hs => ⟨atleast2_rank1 b n hwf hs, atleast3_rank1 b n hwf hs⟩, fun m n hs => atleast3_rank2 b m n hwf hs,
+    atleast2_rank_ge b, atleast3_rank_ge b⟩
+
+/-- **`hsplit` / `vsplit` / `dsplit` are `split` along axis 1 (0 for a vector) / 0 / 2** -/
+theorem xsplit_eq_split (a : Arr α) (zero : α) (parts : Nat) (hp : 0 < parts) :
+    (1 ≤ a.ndim → a.hsplit zero parts = a.split zero parts (some (if a.ndim = 1 then 0 else 1))) ∧
+    (2 ≤ a.ndim → a.vsplit zero parts = a.split zero parts (some 0)) ∧
+    (3 ≤ a.ndim → a.dsplit zero parts = a.split zero parts (some 2)) :=
+  ⟨hsplit_eq a zero parts hp, vsplit_eq a zero parts hp, dsplit_eq a zero parts hp⟩
+
+/-! ## non-vacuity -/
+
+example : sectionSizes 7 3 = [3, 2, 2] := by decide
+example : sectionSizes 2 4 = [1, 1, 0, 0] := by decide
+example : divPoints (sectionSizes 7 3) = [0, 3, 5, 7] := by decide
+example : (⟨List.range 12, [2, 3, 2]⟩ : Arr Nat).WF ∧ 0 ∉ [2, 3, 2] ∧ 1 < (⟨List.range 12, [2, 3, 2]⟩ : Arr Nat).ndim := by decide
+/-- an uneven split along the middle axis: blocks of 2 and 1 rows of every slab, in order -/
+example : (⟨List.range 12, [2, 3, 2]⟩ : Arr Nat).arraySplit 0 2 (some 1)
+    = .ok [⟨[0, 1, 2, 3, 6, 7, 8, 9], [2, 2, 2]⟩, ⟨[4, 5, 10, 11], [2, 1, 2]⟩] := by decide +kernel
+example : (⟨List.range 12, [2, 3, 2]⟩ : Arr Nat).split 0 2 (some 1) = .err .ParameterError := by decide +kernel
+example : ((⟨List.range 12, [2, 3, 2]⟩ : Arr Nat).arraySplit 0 2 (some 1) >>= fun ps => concatenate ps 0 (some 1))
+    = .ok ⟨List.range 12, [2, 3, 2]⟩ := by decide +kernel
+/-- joining along the last axis of a rank-3 array (the arm where `append`'s temporary shape is not the rolled shape) -/
+example : (⟨[0, 1, 2, 3, 4, 5, 6, 7, 8, 9, 10, 11], [2, 3, 2]⟩ : Arr Nat).append ⟨[100, 101, 102, 103, 104, 105], [2, 3, 1]⟩ 0 (some 2)
+    = .ok ⟨[0, 1, 100, 2, 3, 101, 4, 5, 102, 6, 7, 103, 8, 9, 104, 10, 11, 105], [2, 3, 3]⟩ := by decide +kernel
+example : Joinable 1 (⟨List.range 4, [2, 2]⟩ : Arr Nat) [⟨List.range 2, [2, 1]⟩] := by
+  refine ⟨?_, by decide⟩
+  intro b hb
+  simp only [List.mem_cons, List.not_mem_nil, or_false] at hb
+  rcases hb with rfl | rfl <;> decide
+example : (⟨[1, 2], [2]⟩ : Arr Nat).append ⟨[3, 4, 5, 6], [2, 2]⟩ 0 (some 0) = .err .ParameterError := by decide
+example : stack [(⟨[1, 2], [2]⟩ : Arr Nat), ⟨[3, 4], [2]⟩] 0 (some 0) = .ok ⟨[1, 2, 3, 4], [2, 2]⟩ := by decide +kernel
+example : vstack [(⟨[1, 2], [2]⟩ : Arr Nat), ⟨[3, 4], [2]⟩] 0 = .ok ⟨[1, 2, 3, 4], [2, 2]⟩ := by decide +kernel
+example : hstack [(⟨[1, 2], [2, 1]⟩ : Arr Nat), ⟨[3, 4, 5, 6], [2, 2]⟩] 0 = .ok ⟨[1, 3, 4, 2, 5, 6], [2, 3]⟩ := by decide +kernel
+
+example : columnStack [(⟨[1, 2], [2]⟩ : Arr Nat), ⟨[3, 4, 5, 6], [2, 2]⟩] 0 = .ok ⟨[1, 3, 4, 2, 5, 6], [2, 3]⟩ := by decide +kernel
+example : ColOK 2 (⟨[1, 2], [2]⟩ : Arr Nat) ∧ ColOK 2 (⟨[3, 4, 5, 6], [2, 2]⟩ : Arr Nat) :=
+  ⟨⟨by decide, Or.inl rfl⟩, ⟨by decide, Or.inr ⟨2, rfl⟩⟩⟩
+
 end ArrModel.C11
